@@ -359,6 +359,7 @@ func (p *park) hit() {
 var (
 	hookMu      sync.Mutex
 	startParks  = map[*workerpool.WorkerPool]*park{}
+	workParks   = map[*workerpool.WorkerPool]*park{}
 	submitParks = map[*workerpool.WorkerPool]*park{}
 	popParks    = map[any]*park{}
 )
@@ -367,6 +368,14 @@ func installHooks() {
 	workerpool.VerifSubmitHook = func(w *workerpool.WorkerPool) {
 		hookMu.Lock()
 		p := submitParks[w]
+		hookMu.Unlock()
+		if p != nil {
+			p.hit()
+		}
+	}
+	workerpool.VerifHasWorkHook = func(w *workerpool.WorkerPool) {
+		hookMu.Lock()
+		p := workParks[w]
 		hookMu.Unlock()
 		if p != nil {
 			p.hit()
@@ -388,6 +397,15 @@ func installHooks() {
 			p.hit()
 		}
 	}
+}
+
+func parkHasWork(w *workerpool.WorkerPool) *park {
+	p := newPark()
+	hookMu.Lock()
+	workParks[w] = p
+	hookMu.Unlock()
+
+	return p
 }
 
 func parkStart(w *workerpool.WorkerPool) *park {
@@ -438,6 +456,7 @@ func parkPop(stack any) *park {
 func unpark(w *workerpool.WorkerPool) {
 	hookMu.Lock()
 	delete(startParks, w)
+	delete(workParks, w)
 	delete(submitParks, w)
 	delete(popParks, any(w.Queue))
 	hookMu.Unlock()
